@@ -447,26 +447,24 @@ impl<T> DataReaderEntity<T> {
             }
         }
 
-        let is_sample_of_interest_based_on_time = {
-            let closest_timestamp_before_received_sample = self
+        // The sample must be at least minimum_separation apart from every sample of the
+        // instance held in the cache, whether its source timestamp is earlier or later
+        let is_sample_of_interest_based_on_time = match sample.source_timestamp {
+            Some(sample_source_time) => !self
                 .sample_list
                 .iter()
                 .filter(|cc| cc.instance_handle == sample.instance_handle)
-                .filter(|cc| cc.source_timestamp <= sample.source_timestamp)
-                .map(|cc| cc.source_timestamp)
-                .max();
-
-            if let Some(Some(t)) = closest_timestamp_before_received_sample {
-                if let Some(sample_source_time) = sample.source_timestamp {
-                    let sample_separation = sample_source_time - t;
+                .filter_map(|cc| cc.source_timestamp)
+                .any(|t| {
+                    let sample_separation = if t <= sample_source_time {
+                        sample_source_time - t
+                    } else {
+                        t - sample_source_time
+                    };
                     DurationKind::Finite(sample_separation)
-                        >= self.qos.time_based_filter.minimum_separation
-                } else {
-                    true
-                }
-            } else {
-                true
-            }
+                        < self.qos.time_based_filter.minimum_separation
+                }),
+            None => true,
         };
 
         if !is_sample_of_interest_based_on_time {
